@@ -764,6 +764,32 @@ func checkPooledTimers(c *Ctx) {
 				}
 			})
 		}
+		if name == "ReleaseTimer" {
+			// D24: a non-blocking drain is not enough — when Stop() returns false the tick may still be on its way into
+			// the channel (go.mod says go 1.22: Reset does not clear it). Only a timer that was stopped before it fired goes
+			// back into the pool: every Put is on the Stop() == true edge.
+			nPut, okPut := 0, true
+			eachInstr(f, func(in ssa.Instruction) {
+				ci, ok := in.(*ssa.Call)
+				if !ok || callName(ci) != "(*sync.Pool).Put" {
+					return
+				}
+				nPut++
+				stopped := false
+				for _, gd := range guardsOfInstr(in) {
+					v, truth := gd.asBool()
+					if cl, ok := v.(*ssa.Call); ok && truth && callName(cl) == "(*time.Timer).Stop" {
+						stopped = true
+					}
+				}
+				if !stopped {
+					okPut = false
+				}
+			})
+			c.check(nPut > 0 && okPut, "timer-pooled-only-if-stopped@"+name, f.Pos(), "a timer goes back into the pool only when Stop() reports that it had not fired",
+				"a timer whose Stop() returned false (fired, or firing right now) is put back into the pool: its tick can arrive after the drain attempt, and the next user — fallback's threshold timer — sees the threshold as expired at once: the secondary is started (or its standby answer released) while the primary is within the threshold")
+			continue
+		}
 		c.check(good, "timer-drained@"+name, f.Pos(), "the channel is drained exactly when Stop() reports the timer already fired",
 			"a timer that already fired is returned to the pool (or reset) without draining its channel: the next user sees the threshold as expired immediately")
 	}
